@@ -109,25 +109,52 @@ pub fn run_reuse(args: &Args, report: &mut Report) {
         let nreaders = 2 + rng.usize_below(3);
         let keys_per = 2 + rng.usize_below(2);
         let nkeys = nwriters * keys_per;
-        let keys: Arc<Vec<Vec<u8>>> = Arc::new((0..nkeys).map(|i| format!("r{:02}", i).into_bytes()).collect());
+        // regular keys r00.., then one counter key per writer (r90..): only its writer modifies it, only by
+        // atomic_increment, so every result must be exactly the previous one plus the delta even when the base
+        // has to be read back from an extent that the flusher offloaded and the churn recycles
+        let keys: Arc<Vec<Vec<u8>>> = Arc::new((0..nkeys).map(|i| format!("r{:02}", i).into_bytes()).chain((0..nwriters).map(|w| format!("r9{w}").into_bytes())).collect());
+        let nall = nkeys + nwriters;
+        // successful self-swaps by readers: they rewrite the generation (not the value), recorded so that a
+        // StaleExtent seen by another reader meanwhile is recognised as legitimate
+        let rewrites: Arc<Vec<Mutex<Vec<(u64, u64)>>>> = Arc::new((0..nall).map(|_| Mutex::new(Vec::new())).collect());
         let max_blocks = (data_blocks / (nkeys as u64 * 2)).clamp(1, 4);
         let writes_per = if thorough { 260 } else { 160 };
         let stop = Arc::new(AtomicBool::new(false));
         let barrier = Arc::new(Barrier::new(nwriters + nreaders + 1));
-        let logs: Arc<Vec<Mutex<Vec<W>>>> = Arc::new((0..nkeys).map(|_| Mutex::new(Vec::new())).collect());
+        let logs: Arc<Vec<Mutex<Vec<W>>>> = Arc::new((0..nall).map(|_| Mutex::new(Vec::new())).collect());
+        let counter_issues: Arc<Mutex<Vec<String>>> = Arc::new(Mutex::new(Vec::new()));
         let mut whandles = Vec::new();
         for w in 0..nwriters {
-            let (store, keys, logs, barrier) = (store.clone(), keys.clone(), logs.clone(), barrier.clone());
+            let (store, keys, logs, barrier, counter_issues) = (store.clone(), keys.clone(), logs.clone(), barrier.clone(), counter_issues.clone());
             let mut rng = Rng::derive(args.seed, rid, 1000 + w as u64);
             whandles.push(std::thread::spawn(move || {
                 let mut seq = vec![0u32; keys.len()];
                 let mut present = vec![false; keys.len()];
+                let mut counter: i64 = 0;
                 barrier.wait();
                 for _ in 0..writes_per {
                     let k = w * keys_per + rng.usize_below(keys_per);
                     let key = &keys[k];
                     let roll = rng.below(100);
-                    if present[k] && roll < 15 {
+                    if roll >= 88 {
+                        let ck = nkeys + w;
+                        let delta = rng.range(1, 3) as i64;
+                        let inv = tick();
+                        let r = crate::callwatch::watched("atomic_increment", || store.atomic_increment(&keys[ck], delta));
+                        let ret = tick();
+                        match r {
+                            Ok(v) if v == counter + delta => {
+                                counter = v;
+                                logs[ck].lock().push(W { seq: Some(v as u32), inv, ret, rewrite: false });
+                            }
+                            Ok(v) => {
+                                counter_issues.lock().push(format!("atomic_increment({}, {delta}) by the key's only writer over [{inv}..{ret}] returned {v}, previous result was {counter}", hex(&keys[ck])));
+                                counter = v;
+                                logs[ck].lock().push(W { seq: Some(v as u32), inv, ret, rewrite: false });
+                            }
+                            Err(e) => counter_issues.lock().push(format!("atomic_increment({}, {delta}) by the key's only writer failed: {}", hex(&keys[ck]), err_name(&e))),
+                        }
+                    } else if present[k] && roll < 15 {
                         let inv = tick();
                         let r = store.delete(key);
                         let ret = tick();
@@ -176,10 +203,11 @@ pub fn run_reuse(args: &Args, report: &mut Report) {
         }
         let mut rhandles = Vec::new();
         for r in 0..nreaders {
-            let (store, keys, stop, barrier) = (store.clone(), keys.clone(), stop.clone(), barrier.clone());
+            let (store, keys, stop, barrier, rewrites) = (store.clone(), keys.clone(), stop.clone(), barrier.clone(), rewrites.clone());
             let mut rng = Rng::derive(args.seed, rid, 2000 + r as u64);
             rhandles.push(std::thread::spawn(move || {
                 let mut out: Vec<R> = Vec::new();
+                let mut last_seen: Vec<Option<Vec<u8>>> = vec![None; keys.len()];
                 barrier.wait();
                 while !stop.load(Ordering::Relaxed) && out.len() < 6000 {
                     let k = rng.usize_below(keys.len());
@@ -190,6 +218,9 @@ pub fn run_reuse(args: &Args, report: &mut Report) {
                             let inv = tick();
                             let res = store.get(key).map_err(|e| err_name(&e));
                             let ret = tick();
+                            if let Ok(v) = &res {
+                                last_seen[k] = Some(v.clone());
+                            }
                             out.push(R { key: k, inv, ret, res, how: "get", from_disk: crate::mon::thread_preads() > reads_before });
                         }
                         5..=6 => {
@@ -215,9 +246,25 @@ pub fn run_reuse(args: &Args, report: &mut Report) {
                                 Err(e) => out.push(R { key: k, inv, ret, res: Err(format!("range error {}", err_name(&e))), how: "range_query_err", from_disk: false }),
                             }
                         }
+                        _ if k < nkeys && last_seen[k].is_some() && rng.chance(1, 2) => {
+                            // self-swap with a value this reader saw earlier (possibly superseded since): success
+                            // means the store found exactly that value current at some point of the call
+                            let expected = last_seen[k].clone().unwrap();
+                            let inv = tick();
+                            let res = crate::callwatch::watched("compare_and_swap", || store.compare_and_swap(key, &expected, &expected));
+                            let ret = tick();
+                            match res {
+                                Ok(true) => {
+                                    rewrites[k].lock().push((inv, ret));
+                                    out.push(R { key: k, inv, ret, res: Ok(expected), how: "cas_match", from_disk: crate::mon::thread_preads() > reads_before });
+                                }
+                                Ok(false) | Err(FeoxError::KeyNotFound) | Err(FeoxError::OlderTimestamp) => {}
+                                Err(e) => out.push(R { key: k, inv, ret, res: Err(err_name(&e)), how: "cas_match", from_disk: false }),
+                            }
+                        }
                         _ => {
                             // CAS whose expected value belongs to ANOTHER key: may never succeed
-                            let other = (k + 1) % keys.len();
+                            let other = (k + 1) % nkeys;
                             let foreign = values::make(Tag { key_id: key_id(&keys[other]), writer: 9, seq: 1 }, 64);
                             let inv = tick();
                             let res = crate::callwatch::watched("compare_and_swap", || store.compare_and_swap(key, &foreign, b"SWAPPED-BY-FOREIGN-EXPECTED-VALUE"));
@@ -271,6 +318,30 @@ pub fn run_reuse(args: &Args, report: &mut Report) {
                 continue;
             }
             let ws = &logs[r.key];
+            if r.key >= nkeys {
+                // counter key: 8-byte little-endian value, one of the results its only writer obtained
+                match &r.res {
+                    Ok(bytes) if bytes.len() == 8 => {
+                        let v = i64::from_le_bytes(bytes[..].try_into().unwrap());
+                        let (ok, _) = admissible(ws, r.inv, r.ret, Some(v as u32));
+                        if !ok || v < 0 || v > u32::MAX as i64 {
+                            report.violation("reuse:counter-stale-or-foreign", format!("{} of counter {} over [{}..{}] returned {v}, not admissible: increments {:?}", r.how, hex(&keys[r.key]), r.inv, r.ret, ws.iter().map(|w| (w.seq, w.inv, w.ret)).collect::<Vec<_>>()), replay(String::new()));
+                        }
+                        if r.from_disk {
+                            report.count("counter_reads_from_device", 1);
+                        }
+                    }
+                    Ok(bytes) => report.violation("reuse:not-a-genuine-value", format!("{} of counter {} returned {} bytes: {}", r.how, hex(&keys[r.key]), bytes.len(), values::describe(bytes)), replay(String::new())),
+                    Err(name) if name == "KeyNotFound" => {
+                        if !admissible(ws, r.inv, r.ret, None).0 {
+                            report.violation("reuse:spurious-not-found", format!("{} of counter {} over [{}..{}] answered KeyNotFound after its first increment had returned", r.how, hex(&keys[r.key]), r.inv, r.ret), replay(String::new()));
+                        }
+                    }
+                    Err(name) if name == "StaleExtent" && modification_overlaps(ws, r.inv, r.ret) => report.count("stale_extent_errors", 1),
+                    Err(other) => report.violation(format!("reuse:read-error:{}", other.split(' ').next().unwrap_or("")), format!("{} of counter {} failed: {other}", r.how, hex(&keys[r.key])), replay(String::new())),
+                }
+                continue;
+            }
             match &r.res {
                 Ok(bytes) => match values::check(bytes) {
                     Err(why) => {
@@ -313,7 +384,7 @@ pub fn run_reuse(args: &Args, report: &mut Report) {
                 }
                 Err(name) if name == "StaleExtent" => {
                     report.count("stale_extent_errors", 1);
-                    if !modification_overlaps(ws, r.inv, r.ret) {
+                    if !modification_overlaps(ws, r.inv, r.ret) && !rewrites[r.key].lock().iter().any(|(i, t)| *i < r.ret && *t > r.inv) {
                         report.violation("reuse:stale-extent-without-rewrite", format!("{} of key {} answered StaleExtent although the key was not being rewritten during [{}..{}]", r.how, hex(&keys[r.key]), r.inv, r.ret), replay(String::new()));
                     }
                 }
@@ -322,6 +393,11 @@ pub fn run_reuse(args: &Args, report: &mut Report) {
                 }
             }
         }
+        for issue in counter_issues.lock().iter().take(3) {
+            report.violation("reuse:counter-lost-base", issue.clone(), replay(String::new()));
+        }
+        report.count("counter_increments", logs[nkeys..].iter().map(|l| l.len() as u64).sum());
+        report.count("matching_cas_successes", reads.iter().filter(|r| r.how == "cas_match" && r.res.is_ok()).count() as u64);
         let (pins, pin_checks, pin_violations) = mon.pin_stats();
         report.count("extent_pins_observed", pins);
         report.count("device_writes_checked_against_pins", pin_checks);
@@ -335,7 +411,7 @@ pub fn run_reuse(args: &Args, report: &mut Report) {
         absorb(report, &ctl);
         if report.samples.is_empty() {
             report.sample(json!({"run": rid, "config": cfg.label(), "data_blocks": data_blocks, "writers": nwriters, "readers": nreaders, "keys": nkeys, "reads": reads.len(), "flush_calls": flushes,
-                "first_reads": reads.iter().take(6).map(|r| format!("{} {} [{}..{}] -> {}", r.how, hex(&keys[r.key.min(nkeys - 1)]), r.inv, r.ret, r.res.as_ref().map(|b| values::describe(b)).unwrap_or_else(|e| e.clone()))).collect::<Vec<_>>()}));
+                "first_reads": reads.iter().take(6).map(|r| format!("{} {} [{}..{}] -> {}", r.how, hex(&keys[r.key.min(nall - 1)]), r.inv, r.ret, r.res.as_ref().map(|b| values::describe(b)).unwrap_or_else(|e| e.clone()))).collect::<Vec<_>>()}));
         }
         hub().unwatch(&mon);
         drop(store);
